@@ -7,15 +7,25 @@ PROP_V = ["Props/Properties_C04.v"]
 GEN_MODULES = ["Consts", "Sites"]
 FLOW_FILES = ['cv.c', 'sem_wait.c']
 REPLAY_HINT = "VRT_SEED=<seed> VRT_MODE=<m> _work/h/cv_mix (or waitn_mix)"
-PARTIAL = ["'(0, or the object's index from nsync_wait_n)': CvModel logs only was_queued for nsync_wait_n records; the returned index is WaitNModel's theorem (C11_index)",
-           'configurations: CvModel has one cv, one mutex, one note; waiter-struct reuse across two cvs (remove_count carries over) is covered by the scenario oracles only',
-           "C04_no_stuck is proved as C04_no_stuck_partial (in a quiescent world a thread asleep in nsync_cv_wait is still on the cv queue, or its "
-           "record was taken by a waker that has finished with it while its semaphore is empty) + C04_waker_moves; the full statement "
-           "(C04_no_stuck_full, kept as a Definition) additionally needs the per-thread semaphore post accounting, which the abstract mutex "
-           "of CvModel does not carry (the semaphore is shared with the thread's mutex sleeps), and the mutex's obligation to wake "
-           "transferred waiters (C02 / MuModel); 'every waiter without a deadline finishes' is decided by the stuck detector",
+PARTIAL = ["C04_no_lost_wakeup(_waitn): a waiter at its semaphore wait whose record a waker took is still on that waker's private list, or on the abstract "
+           "mutex's queue / wake list, or has waiting = 0 with a post available, its waker at the V for it, or a post owed by the abstract mutex.  C04_no_stuck / "
+           "C04_no_stuck_waitn are proved for quiescent worlds in which the ABSTRACT mutex holds no transferred waiter and owes no post (muq = mwake = [], owed = 0); "
+           "without 'owes no post' the statement is refuted (C04_no_stuck_uncoupled_refuted: an unlocker that clears waiting and never posts), a behaviour mu.c excludes "
+           "(the V follows the store) and the lock-step replay checks on every trace; that the abstract mutex eventually dequeues and wakes a transferred waiter is "
+           "C02/MuModel's, not connected by a theorem",
+           "C04_wake_complete is over the ghost history of each signal/broadcast call (k_q .. k_posts, written in the same step as the real effect: "
+           "C04_taken/xfer/store/post_ghost): broadcast takes every queued record, signal the first and, if that is a reader, all queued readers; every taken record is "
+           "woken (waiting cleared and the owner's semaphore posted) or handed to the mutex queue; that the woken thread then returns is C04_no_lost_wakeup + C04_no_stuck",
+           "touch_queue over-approximates the records the dll operations access (every queued record)",
+           "'(0, or the object's index from nsync_wait_n)': CvModel logs only was_queued for nsync_wait_n records; the returned index is WaitNModel's theorem (C11_index_world)",
+           "configurations: CvModel has one cv, one mutex, one note; waiter-struct reuse across two cvs (remove_count carries over) is covered by the scenario oracles only",
            "the mutex inside CvModel is abstract (atomic lock field, environment actors for the queue hand-over); MuModel / MuWaitModel are its models"]
-TRUSTED_BASE = ["Model/CvModel.v control skeleton (cv.c: wait with deadline/cancel incl. the generic-lock path, signal, broadcast, wake_waiters with "
+TRUSTED_BASE = ["CvModel's abstract mutex couples the unlocker's store waiting = 0 with its V through the ghost counter `owed`; the coupling (each MuWakeSt is followed by "
+                "that thread's V on the same waiter, nothing owed at the end) is validated on every replayed trace by replay/cv_replay.ml, as is 'every signal/broadcast "
+                "call past the early exit is logged' (#sites 306/404 = |wlog|)",
+                "wake_waiters' access pattern after the F3 repair (semaphore owner captured at the store, the V touches nothing) is in the model; a mutant that reads it in "
+                "VV violates C04_no_dead_record",
+                "Model/CvModel.v control skeleton (cv.c: wait with deadline/cancel incl. the generic-lock path, signal, broadcast, wake_waiters with "
                 "the transfer to the mutex queue, nsync_wait_n's cv callbacks): hand-written, validated by lock-step replay with cv-queue and "
                 "mutex-queue snapshots (replay/cv_replay.ml)"]
 
